@@ -26,7 +26,16 @@ func encode(v any) ([]byte, error) {
 	return e.Encode(v)
 }
 
+// exact returns a copy whose capacity equals its length: a decoder that reslices past the end of its input then faults
+// instead of quietly reading the spare capacity of the caller's buffer (prefixes and appended copies have plenty).
+func exact(b []byte) []byte {
+	out := make([]byte, len(b))
+	copy(out, b)
+	return out
+}
+
 func decode(data []byte, v any) (int, error) {
+	data = exact(data)
 	d := types.NewDecoder()
 	d.SetHashSegmentMap(types.HashSegmentMap{})
 	return d.DecodeWithConsumed(data, v)
@@ -652,6 +661,18 @@ func TestVerifC14(t *testing.T) {
 				h.Viol("frame", ci, "", "untrusted bytes: message reader allocation not bounded by the input length", d)
 			}
 			h.Inc("frames_watched")
+			// the payload decoders themselves, on a buffer without spare capacity (ReadFrom hands them one with slack)
+			if len(in) > 5 {
+				for _, um := range []interface{ UnmarshalBinary([]byte) error }{new(fuzz.PeerInfo), new(fuzz.ErrorMessage), new(fuzz.ImportBlock), new(fuzz.SetState), new(fuzz.GetState), new(fuzz.State), new(fuzz.StateRoot)} {
+					pl := exact(in[5:])
+					if pn2, pm2, st2 := vh.Guard(func() { um.UnmarshalBinary(pl) }); pn2 {
+						d["panic"], d["stack"], d["decoder"] = pm2, st2, fmt.Sprintf("%T", um)
+						h.Viol("frame", ci, "", "untrusted bytes: message payload decoder panicked", d)
+						break
+					}
+					h.Inc("payload_decodes_on_exact_capacity_buffers")
+				}
+			}
 			if ci < 2 && ii == 1 {
 				h.Sample(map[string]any{"type": "fuzz.Message", "frame_len": len(in), "frame_head": vh.Hex(in[:min(len(in), 48)]), "accepted": err == nil, "allocated_bytes": alloc})
 			}
